@@ -102,7 +102,8 @@ def deliver(framing, direction, uid, chunks):
     got = []
 
     def cb(m):
-        got.append((proxy.seen[-1].hex() if proxy.seen else None, m.unit_id,
+        pdu_ = proxy.pdu_of(m)
+        got.append((pdu_.hex() if pdu_ is not None else None, m.unit_id,
                     m.transaction_id if framing == 'tcp' else None, m.protocol_id if framing == 'tcp' else None))
     for i, c in enumerate(chunks):
         try:
